@@ -17,10 +17,30 @@
 (* functions), a created operator is identified by the call creating it.   *)
 (* The sequences are printed for replay (every PM_SampleMod-th of the      *)
 (* longest ones; all shorter ones are their prefixes).                     *)
+(*                                                                         *)
+(* LAYOUT SWEEP (mode "sweep").  Second family of behaviours: a case is    *)
+(*   [p, s, c]  path p (PM_Paths: a product, a solve / inverse through     *)
+(*              Triangular, Cholesky, LU, CG, GMRES or a structured rule,  *)
+(*              a matrix function, a decomposition, a constructor; its     *)
+(*              role says which argument is swept: right / left operand,   *)
+(*              start vector, initial guess, index array, constructor      *)
+(*              array), side s (right product "R", left product "L", plain *)
+(*              argument "A"), value class c (1-D, column / row, matrix,   *)
+(*              float32 versions, ...).                                    *)
+(* owned holds the SAME value of class c once per memory layout            *)
+(* PM_Classes[c] (contiguous, strided slice, negative strides, Fortran     *)
+(* order, transposed view, read-only, ...).  A step calls the path with    *)
+(* one of these arrays as the argument: CallOnArgument with the layout-    *)
+(* free signature <<"sweep", p, s, c>> - every layout must leave owned     *)
+(* unchanged and return the remembered result.  All sequences of           *)
+(* PM_SweepLen layouts (repetitions included: the repeated call) are       *)
+(* explored for every case; the printed ones (all if PM_SweepAll, else one *)
+(* extension of every sequence one shorter: each layout of the class is    *)
+(* then first exactly once per case) are replayed against the library.     *)
 (***************************************************************************)
 EXTENDS Persist, Json, PersistModel
 
-VARIABLES live, hist
+VARIABLES live, hist, mode, sw
 
 NA == Len(PM_Acts)
 
@@ -46,28 +66,69 @@ Result(a, x) ==
       [] a.out = "gen" -> <<[n |-> d.n, spd |-> FALSE]>>
       [] a.out = "kron" -> <<[n |-> d.n * PM_Pool[2].n, spd |-> d.spd /\ PM_Pool[2].spd]>>
 
-MCInit == /\ owned = "owned-arrays"
-          /\ ops = [i \in 1..Len(PM_Pool) |-> <<"pool", i>>]
-          /\ memo = <<>>
-          /\ live = PM_Pool
-          /\ hist = <<>>
+SeqInit == /\ mode = "seq"
+           /\ sw = <<>>
+           /\ owned = ("pool-and-argument-arrays" :> "initial-value")
+           /\ ops = [i \in 1..Len(PM_Pool) |-> <<"pool", i>>]
+           /\ memo = <<>>
+           /\ live = PM_Pool
+           /\ hist = <<>>
+
+SeqToSet(q) == {q[i]: i \in DOMAIN q}
+SweepCases == {[p |-> p, s |-> s, c |-> c]:
+                    p \in 1..Len(PM_Paths), s \in {"R", "L", "A"},
+                    c \in DOMAIN PM_Classes} 
+ValidCase(k) == /\ k.s \in SeqToSet(PM_Roles[PM_Paths[k.p].role].sides)
+                /\ k.c \in SeqToSet(PM_Roles[PM_Paths[k.p].role].classes)
+Kinds(c) == PM_Classes[c]
+
+SweepInit == /\ mode = "sweep"
+             /\ sw \in {k \in SweepCases: ValidCase(k)}
+             /\ owned = [lay \in SeqToSet(Kinds(sw.c)) |-> <<"value-of-class", sw.c, "in-layout", lay>>]
+             /\ ops = << <<"path", sw.p>> >>
+             /\ memo = <<>>
+             /\ live = <<[n |-> 4, spd |-> FALSE]>>
+             /\ hist = <<>>
+
+MCInit == SeqInit \/ SweepInit
 
 Step(ai, x) ==
     LET a == PM_Acts[ai]
         sig == <<ai, x>> IN
+    /\ mode = "seq" /\ UNCHANGED <<mode, sw>>
     /\ Len(hist) < PM_MaxLen
     /\ Enabled(a, x)
     /\ Call(sig, sig, [k \in 1..Len(Result(a, x)) |-> <<"made-by", Len(hist) + 1>>])
     /\ live' = live \o Result(a, x)
     /\ hist' = Append(hist, sig)
 
-MCNext == \E ai \in 1..NA: \E x \in 1..Len(live): Step(ai, x)
-MCSpec == MCInit /\ [][MCNext]_<<owned, ops, memo, live, hist>>
+(* one call of the swept path with the argument in layout Kinds(sw.c)[q]; the signature does not mention q *)
+SweepStep(q) ==
+    LET sig == <<"sweep", sw.p, sw.s, sw.c>> IN
+    /\ mode = "sweep" /\ UNCHANGED <<mode, sw, live>>
+    /\ Len(hist) < PM_SweepLen
+    /\ CallOnArgument(sig, sig, <<>>, Kinds(sw.c)[q])
+    /\ hist' = Append(hist, <<0, q>>)
+
+MCNext == \/ \E ai \in 1..NA: \E x \in 1..Len(live): Step(ai, x)
+          \/ \E q \in 1..(IF mode = "sweep" THEN Len(Kinds(sw.c)) ELSE 0): SweepStep(q)
+MCSpec == MCInit /\ [][MCNext]_<<owned, ops, memo, live, hist, mode, sw>>
 
 Typed == Len(ops) = Len(live)
 
 RECURSIVE WSum(_, _)
 WSum(h, j) == IF j > Len(h) THEN 0 ELSE (h[j][1] * (7 * j + 3) + h[j][2] * (5 * j + 1)) + WSum(h, j + 1)
 SelectedLeaf == PM_SampleMod = 1 \/ (WSum(hist, 1) + PM_SampleRes) % PM_SampleMod = 0
-Emit == (Len(hist) = PM_MaxLen /\ SelectedLeaf) => PrintT(ToJson([h |-> hist]))
+
+(* sweep: of the sequences extending one prefix exactly one is printed (the last layout has weight 1 and ranges   *)
+(* over Len(Kinds) consecutive integers), unless PM_SweepAll                                                      *)
+RECURSIVE QSum(_, _)
+QSum(h, j) == IF j >= Len(h) THEN 0 ELSE 3 * h[j][2] + QSum(h, j + 1)
+SelectedSweep == PM_SweepAll \/ (QSum(hist, 1) + hist[Len(hist)][2] + PM_SweepRes) % Len(Kinds(sw.c)) = 0
+
+Emit == IF mode = "seq"
+        THEN (Len(hist) = PM_MaxLen /\ SelectedLeaf) => PrintT(ToJson([h |-> hist]))
+        ELSE (Len(hist) = PM_SweepLen /\ SelectedSweep) =>
+                PrintT(ToJson([sw |-> [p |-> PM_Paths[sw.p].name, s |-> sw.s, c |-> sw.c],
+                               q |-> [j \in 1..Len(hist) |-> Kinds(sw.c)[hist[j][2]]]]))
 =============================================================================
